@@ -3,6 +3,6 @@ CONSTANTS
   ItemCodes = {"Ra", "RB", "Rb", "Rz", "Ga", "Gb", "O", "M", "A"}
   MaxLen = 3
   MaxDev = 2
-  DevTypes = {"sep", "dir", "semi", "cmt", "range"}
+  DevTypes = {"sep", "dir", "semi", "cmt", "mline", "range"}
 INVARIANT Emit
 CHECK_DEADLOCK FALSE
